@@ -251,6 +251,8 @@ pub struct Spec1<T> {
     pub strat: Strat1<T>,
     pub data_lay: Layout,
     pub x_lay: Layout,
+    /// memory layout of the `Individual` boundary array; None: derived from the case's bits
+    pub bounds_lay: Option<Layout>,
     pub sto: StoCombo,
 }
 
@@ -264,6 +266,7 @@ impl<T: Flt> Spec1<T> {
             strat,
             data_lay: Layout::c(nd),
             x_lay: Layout::c(1),
+            bounds_lay: None,
             sto: StoCombo::OO,
         }
     }
